@@ -16,7 +16,7 @@ from checks import dpgen, dplib
 PROP = "C16"
 S, D, P = dpgen.src, dpgen.dst, dpgen.proc
 KINDS = ["proc-gen", "conn-setting", "desc", "dlq", "add-proc", "del-proc"]
-LA_KEEP = {"Reset", "Planned", "ApplyCall", "ApplyRet", "TxTag", "StoreSet", "Open", "Teardown", "SrcAck", "Durable",
+LA_KEEP = {"Reset", "Planned", "ApplyCall", "ApplyRet", "Emit", "Proc", "TxTag", "StoreSet", "Open", "Teardown", "SrcAck", "Durable",
            "End", "Hang", "Panic", "HarnessError", "ChildTimeout"}
 LA_INV = {"StaleRefused", "AuthRequired", "DrainedBeforeMutate", "AppliedIsDesired", "FailedConsistent",
           "ContinuesFromDurable", "NoHang"}
@@ -50,7 +50,7 @@ def special(engine, rng, n):
     for i in range(n):
         b = base(engine, "x%04d" % i)
         k1, k2 = rng.sample(KINDS, 2)
-        variant = i % 4
+        variant = i % 6
         pre = [{"do": "Emit", "src": "pl:s1"}] * rng.randint(0, 2)
         feats = {"live-apply", "reconf"}
         if variant == 0:      # stale: plan A, plan + apply B, then apply A
@@ -62,6 +62,27 @@ def special(engine, rng, n):
                            {"do": "Apply", "force": True, "n": 1, "k": 1}, {"do": "Apply", "force": True, "n": 2, "k": 1},
                            {"do": "AwaitCalls", "ms": 5000}]
             feats.add("concurrent-apply")
+        elif variant == 4:    # two applies at once, the first one held inside its critical section (a status / config
+            # write of the pipeline) while the second one arrives
+            part = {"proc-gen": "procs", "add-proc": "procs", "del-proc": "procs", "conn-setting": "conn", "desc": "desc", "dlq": "dlq"}
+            k1 = rng.choice([k for k in KINDS if k != "proc-gen"])
+            k2 = rng.choice([k for k in KINDS if part[k] != part[k1]])     # an independent change
+            steps = pre + [{"do": "Plan", "tag": k1, "k": 1}, {"do": "Plan", "tag": k2, "k": 2},
+                           {"do": "HoldStore", "dst": "set", "tag": "pipeline:instance:"},
+                           {"do": "Apply", "force": True, "n": 1, "k": 1}, {"do": "WaitHeld", "ms": 5000},
+                           {"do": "Apply", "force": True, "n": 2, "k": 1}, {"do": "Sleep", "ms": 150},
+                           {"do": "ReleaseStore"}, {"do": "AwaitCalls", "ms": 8000}]
+            feats |= {"concurrent-apply", "held-apply"}
+        elif variant == 5:    # an in-place apply with several swaps, one of which cannot be opened: all are undone
+            nproc = rng.choice([2, 3])
+            bad = rng.randint(1, nproc)
+            b["procs"] = [P("pl:p%d" % k, "pipeline", 1, {}, **({"open_err_gen": "2"} if k == bad else {}))
+                          for k in range(1, nproc + 1)]
+            steps = pre + [{"do": "Plan", "tag": "proc-gen-all", "k": 0}, {"do": "Apply", "force": True},
+                           {"do": "Emit", "src": "pl:s1"}, {"do": "Settle"},
+                           {"do": "Plan", "tag": "proc-gen-all", "k": 1}, {"do": "Apply", "force": True},
+                           {"do": "Emit", "src": "pl:s1"}]
+            feats |= {"inplace-partial-fail", "proc-gen-all"}
         elif variant == 2:    # a store operation of the apply fails
             steps = pre + [{"do": "Plan", "tag": k1, "k": 1}, {"do": "Apply", "force": True}]
             b["store_faults"] = [{"op": rng.choice(["set", "commit", "begin"]), "at": rng.randint(3, 12), "key": ""}]
@@ -83,7 +104,7 @@ def nontrivial(sc, tr):
         return None
     call = next(e for e in tr if e["ev"] == "ApplyCall")
     before = [e for e in tr if e["n"] < call["n"]]
-    return (sc["engine"], tuple(f for f in sc["features"] if f in KINDS + ["stale", "concurrent-apply", "apply-fails", "restart-fails"]),
+    return (sc["engine"], tuple(f for f in sc["features"] if f in KINDS + ["stale", "concurrent-apply", "held-apply", "apply-fails", "restart-fails", "inplace-partial-fail"]),
             rets, sum(1 for e in before if e["ev"] == "Emit"), sum(1 for e in before if e["ev"] == "SrcAck"))
 
 
@@ -105,7 +126,7 @@ def run(tier, seed):
     if quick:
         scs = scs[::2] + scs[1::6]
     chk.run(scs, name="apply-everywhere")
-    n = 24 if quick else 600
+    n = 36 if quick else 720
     chk.run(special("v1", rng, n) + special("v2", rng, n), name="apply-special")
     # --- validate: LiveApplyTrace + DataPathTrace
     herr = [tr[0].get("scenario") for tr in chk.traces if any(e["ev"] in ("HarnessError", "ChildTimeout") for e in tr)]
